@@ -103,6 +103,17 @@ check("C09", "proof",
       "RE2 semantics trusted (valid/invalid outcome abstracted); builtin map/filter/list()/sum semantics; element "
       "abstraction; a reference-evaluator bounded stand-in under both runners.",
       "contract-based deductive verification: symbolic sequences, fold and loop invariants + z3", "DESIGN.md 4/C09")
+check("C10", "proof",
+      "The conversion entries of base_functions are executed symbolically: int(uint)/uint(int) exact iff in range; "
+      "int(double)/uint(double) truncate toward zero (characterised by the defining inequalities over the reals) and are "
+      "errors exactly when the truncated value does not fit, NaN and infinities included; int(string(i)) == i, "
+      "uint(string(u)) == u, double(string(d)) == d, string(bytes(s)) == s as compositions of the real constructors; "
+      "arbitrary bytes -> string or an error; unparsable text -> error; function_eval turns every raised "
+      "ValueError/TypeError/OverflowError/UnicodeDecodeError/AttributeError into an error value.",
+      "Trusted CPython facts entered as assumptions: str(int) is -?[0-9]+ with int(str(n)) == n, float(repr(x)) == x, "
+      "UTF-8 decode inverts encode; timestamp/duration text round trips (strftime, pendulum, float seconds) and the "
+      "compiled runner are a bounded stand-in (years 1-9999, range ends).",
+      "contract-based deductive verification: symbolic execution + z3 (Real abstraction for double->int)", "DESIGN.md 4/C10")
 _pending = "contracts for this property are not built yet in this revision (work in progress, see DESIGN.md section 8 build order)"
-for _p in ["C03","C04","C05","C06","C07","C10","C11","C12","C14","C16"]:
+for _p in ["C03","C04","C05","C06","C07","C11","C12","C14","C16"]:
     NA[_p] = _pending
